@@ -258,6 +258,26 @@ def c05(ctx):
     if n_succ == 0:
         raise AnalysisBroken('no successful decoder return found')
     _grammar(ctx, ('hexbuf', 'string'))
+    _decoded(ctx, ('hexbuf', 'string'))
+
+
+def _decoded(ctx, kinds):
+    """on success the variable holds precisely the decoded bytes: every step of the decoder, for every
+    input byte in every reachable decoder state, stores what the reference transducer emits - one byte
+    at the decoded length, the terminator at the end - for both writable access modes"""
+    from . import dfa
+    m = ctx.model
+    E = m.prog.enums
+    for kind in kinds:
+        fname = ctx.extra['grammar'][kind]['decoder']
+        for mode in ('CAT_VAR_ACCESS_READ_WRITE', 'CAT_VAR_ACCESS_WRITE_ONLY'):
+            exq = dfa.Extractor(m, fname, access=E[mode], exact_small=True)
+            bad, npairs, ntr = dfa.compare_out(exq, kind)
+            ctx.instance('decoded', ntr)
+            ctx.extra.setdefault('decoded', {})['%s/%s' % (kind, mode)] = {'decoder': fname, 'product_states': npairs, 'steps_compared': ntr}
+            for witness, msg in bad:
+                ctx.check('decoded', False, ctx.site(fname, m.fn_line(fname)),
+                          'after the text %r (variable %s) the %s decoder %s' % (witness.decode('latin1'), mode, kind, msg))
     return ctx
 
 
